@@ -460,8 +460,11 @@ def run(repo: Repo, rep: Report, tier: str) -> None:
     call_shortcut_rule(repo, rep, "C09.R7")
     leb128_rule(repo, rep, "C09.R8")
     shape_rule(repo, rep, tier, absolute_padding_rule, "C09.R10")
+    from .memo import memo_rule
 
+    memo_rule(repo, rep, "C09.R14")
+    from .c07 import clamp_rule
+    from .c11 import union_call_rule
 
-
-
-
+    clamp_rule(repo, rep, "C09.R15")
+    union_call_rule(repo, rep, "C09.R16")
